@@ -8,6 +8,7 @@ import Biogo.Spec.Kmer
 import Biogo.Proofs.Kmer
 import Biogo.Proofs.KmerIndex
 import Biogo.Proofs.KmerWord
+import Biogo.Proofs.KmerComplement
 import Biogo.Generated.KmerFacts
 
 namespace Biogo.Properties.C10
@@ -187,6 +188,30 @@ theorem kmerOf_rejects (lk : Lookup) (k : Nat) (text : List UInt8) :
     is the number of `c`/`g` digits among the `k` digits of the word (any `k`, any word) -/
 theorem gc_spec (k w : Nat) : gcOf k w = gcCount (toDigits k w) := by
   unfold gcOf; rw [gcLoop_eq, Nat.zero_add]
+
+/-- "reverse-complement agree[s] with the corresponding string operations": for every supported
+    word length that fits the word type (`2 ≤ k`, `2k ≤ 32`) and every digit list of length `k`,
+    `ComplementOf` of its numeral is the numeral of the reversed list with `0,1,2,3 ↦ 3,2,1,0`.
+    Proved by bit extensionality over the loop as written (no `bv_decide`). -/
+theorem complement_spec (k : Nat) (hk2 : 2 ≤ k) (hk : 2 * k ≤ wordBits) (ds : List Nat)
+    (hlen : ds.length = k) (hd : ∀ d ∈ ds, d < 4) :
+    complementOf k (encode ds) = encode (revComp ds) := by
+  rw [Biogo.Proofs.KmerComplement.complementOf_eq k (encode ds) hk2 hk, ← hlen, toDigits_encode ds hd]
+
+/-- `check_true`: after `Build`, `Check()` finds every callback in its bucket: `(true, number of
+    valid windows)` -/
+theorem check_true {lk : Lookup} (hlk : FourLetter lk) (k : Nat) (s : List UInt8)
+    (hk : minKmerLen ≤ k) (hk' : k ≤ maxKmerLen) (hs : k + 1 ≤ s.length) :
+    ∃ ix, new lk 4 k s = .ok ix ∧ check lk (build lk ix) = (true, (allWindows lk k s).length) := by
+  obtain ⟨hk1, hk2⟩ := supported_k hk hk'
+  refine ⟨_, new_ok lk k s hk hk' hs, ?_⟩
+  have inv := build_inv hlk k hk1 hk2 s (by omega)
+    { k, seq := s, finger := buildTable k (forEachKmer lk k s 0 s.length).calls, pos := #[], indexed := false }
+    rfl rfl (new_finger hlk k hk1 hk2 s)
+  exact check_of_inv hlk k hk1 hk2 s (by omega) _ rfl rfl inv
+
+-- non-vacuity: "gatc" (141) reverse-complemented is "gatc" again; "aacg" (6) gives "cgtt" (111)
+example : complementOf 4 141 = 141 ∧ complementOf 4 6 = 111 ∧ encode (revComp [0, 0, 1, 2]) = 111 := by decide
 
 -- non-vacuity: the DNA letters; "gatc" = 2·64 + 0·16 + 3·4 + 1 = 141, two of its letters are G/C
 example :
